@@ -2,6 +2,7 @@
 SPECIFICATION Spec
 CONSTANTS
   MaxSig = 3
+  MaxCalls = 2
   OrderedMerge = FALSE
   ReadsLeak = FALSE
 INVARIANT Functional
